@@ -61,6 +61,8 @@ class BuiltinsMixin:
             cell = self.heap()[a[0].addr]
             if cell.native is not None and hasattr(cell.native, "iterate"):
                 return VInt(cell.native.iterate(self, a[0]).length())
+        if self.spec_mode and isinstance(d, (VNone, vals.VBottom)):
+            return vals.BOTTOM   # specification text: a partial term under a (necessarily false) guard
         raise Unsupported(f"len of {d!r}")
 
     def bi_str(self, a, k):
@@ -71,6 +73,10 @@ class BuiltinsMixin:
             return v
         if isinstance(v, VInt):
             return VStr(z3.IntToStr(v.t))
+        if isinstance(v, VNone):
+            return VStr(z3.StringVal("None"))
+        if isinstance(v, VOpt) and isinstance(v.val, VStr) and not v.val.b:
+            return VStr(z3.If(v.isnone, z3.StringVal("None"), v.val.t))
         if isinstance(v, VOpaque):
             return self.registry.opaque_str(self, v)
         if isinstance(v, VRef):
@@ -204,6 +210,12 @@ class BuiltinsMixin:
         from .core import RaiseSignal
 
         name = vals.concrete_str(a[1])
+        d0 = self.deref(a[0])
+        if isinstance(d0, vals.VOpaque):
+            oc = self.registry.opaques.get(d0.cls)
+            if oc is not None and name in getattr(oc, "maybe", []):
+                # an optional method of an interface: whether this object has it is a fact about the object
+                return VBool(z3.Function(f"has_attr[{d0.cls}.{name}]", d0.t.sort(), z3.BoolSort())(d0.t))
         try:
             self.getattr(a[0], name)
             return VBool(True)
